@@ -4,6 +4,7 @@ package main
 // configurations.
 
 import (
+	"go/types"
 	"fmt"
 	"go/constant"
 	"strings"
@@ -622,7 +623,10 @@ func (c *Check) routerIDAccepted(rule string) {
 // for one address otherwise both pass the test, and two peer managers run.
 func (c *Check) checkThenActAtomic(rule string) {
 	p := c.P
-	isPeersMap := func(v ssa.Value) bool { return typeKey(v.Type()) == "map[string]*peer" }
+	isPeersMap := func(v ssa.Value) bool {
+		m, ok := v.Type().Underlying().(*types.Map)
+		return ok && typeKey(m.Elem()) == "*peer"
+	}
 	for _, name := range []string{"Server.AddPeer", "Server.DeletePeer"} {
 		fn := p.Fn(name)
 		if fn == nil {
